@@ -73,6 +73,46 @@ Qed.
 
 End DynId.
 
+(* the same statement for the solved model of Theorem square_solves_system *)
+Section LeadsOfFull.
+Variable F : fieldType.
+Variables nb nf ne : nat.
+Variables (A B : 'M[F]_(nb + nf, nf + nb)) (C : 'cV[F]_(nb + nf)) (D : 'M[F]_(nb + nf, ne)).
+Variables (S T Q : 'M[F]_(nb + nf)) (Z : 'M[F]_(nf + nb, nb + nf)) (Ta u : 'M[F]_nb).
+Notation O := (MCOps F).
+Let p := @solve_transition O nb nf ne S T Q Z C D.
+Let sq := @square_from_triangular O nb nf ne (@detach O nb nf ne p Ta u).
+
+Hypothesis QAZ : Q *m A *m Z = S.
+Hypothesis QBZ : Q *m B *m Z = T.
+Hypothesis uQ : Q \in unitmx.
+Hypothesis S21_0 : dlsubmx S = 0.
+Hypothesis T21_0 : dlsubmx T = 0.
+Hypothesis uS11 : ulsubmx S \in unitmx.
+Hypothesis uT22 : drsubmx T \in unitmx.
+Hypothesis uST22 : drsubmx S + drsubmx T \in unitmx.
+Hypothesis uZ21 : dlsubmx Z \in unitmx.
+Hypothesis uu : u *m u^T = 1%:M.
+Hypothesis schur : ts_Tg p = u *m Ta *m u^T.
+
+Variables (c : nat -> 'cV[F]_nb) (a : nat -> 'cV[F]_nf) (v : nat -> 'cV[F]_ne).
+Hypothesis c_step : forall m, c m.+1 = sq_T sq *m c m + sq_K sq + sq_P sq *m v m.+1 - sq_X sq *m a m.+1.
+Hypothesis a_step : forall m, a m = ts_Ru p *m v m.+1 + ts_J p *m a m.+1.
+
+Theorem leads_of_full (idx : nat -> 'I_(nf + nb)) n (j0 : 'I_nb) :
+  idx 0%N = rshift nf j0 ->
+  (forall k, (k < n)%N -> exists r, dynid_row A B C D r (idx k) (idx k.+1)) ->
+  forall m, full C D S T Q Z (c m) (a m) (idx n) 0 = c (m + n)%N j0 0.
+Proof.
+apply: (@leads_are_future_states F nb nf ne A B C D (sq_T sq) (sq_K sq) (sq_P sq) (sq_X sq) (ts_J p) (ts_Ru p)
+          (full C D S T Q Z) _ _ c a v c_step a_step).
+- by move=> xi a0; exact: full_bottom.
+- move=> xi0 e a0.
+  exact: (@square_step F nb nf ne A B C D S T Q Z Ta u QAZ QBZ uQ S21_0 T21_0 uS11 uT22 uST22 uZ21 uu schur).
+Qed.
+
+End LeadsOfFull.
+
 (* ================================================================== *)
 Section Spectrum.
 Variable F : fieldType.
